@@ -208,6 +208,59 @@ def check_long(case):
     return dict(nontrivial=True, labels=[f"T:{T}"])
 
 
+# ------------------------------------------------------------------ clause: big n-d arrays
+def _bignd_cases(tier):
+    shapes = [(101, 100), (22, 22, 22), (3, 4000)] if tier == "quick" else [
+        (101, 100), (100, 101), (22, 22, 22), (3, 4000), (4000, 3), (12001, 1), (1, 12001), (2, 3, 11000),
+        (257, 257), (41, 40, 41)]
+    for shp in shapes:
+        for k, cfg in enumerate((["pos", "pos"], ["neg", "pos"], ["pos", "neg"], ["neg", "neg"])):
+            if tier == "quick" and k in (1, 2) and shp != (101, 100):
+                continue
+            yield dict(shape=list(shp), cfg=cfg, k=k)
+
+
+def check_bignd(case):
+    """2-d / 3-d threshold and target arrays with more than 1e4 entries (round 10, c10-s: a code path
+    that only large arrays take, correct for 1-d only): every element equals the scalar call, the whole
+    result equals the call on the flattened array."""
+    from score_analysis import Scores
+
+    shp, (sc, ec), k = tuple(case["shape"]), case["cfg"], case["k"]
+    n = int(np.prod(shp))
+    pos = [0.25 * ((7 * i + k) % 23) for i in range(13)]
+    neg = [0.25 * ((5 * i + 2 * k) % 19) - 1.0 for i in range(10)]
+    o = Scores(pos, neg, nb_easy_pos=k, nb_easy_neg=2 * k, score_class=sc, equal_class=ec)
+    thr = np.asarray([(((53 * i + k) % 997) / 997) * 8.0 - 1.75 for i in range(n)]).reshape(shp)
+    tg = np.asarray([((37 * i + 11 * k) % 1009) / 1008 for i in range(n)]).reshape(shp)
+    thr0, tg0 = thr.copy(), tg.copy()
+    idx = [np.unravel_index((i * 7919 + k) % n, shp) for i in range(300)] + [tuple(0 for _ in shp), tuple(d - 1 for d in shp)]
+    cm = o.cm(thr).matrix
+    require(cm.shape == shp + (2, 2), "vec:cm-shape", f"{cm.shape} for thresholds of shape {shp}")
+    require(np.array_equal(cm.reshape(n, 2, 2), o.cm(thr.ravel()).matrix), "vec:cm-elementwise",
+            lambda: f"cm(<thresholds of shape {shp}>) differs from cm(<the same thresholds flattened>) reshaped")
+    for ix in idx:
+        require(np.array_equal(cm[ix], o.cm(float(thr[ix])).matrix), "vec:cm-elementwise",
+                lambda: f"cm(<thresholds of shape {shp}>)[{ix}] = {cm[ix].tolist()} but cm({float(thr[ix])!r}) = "
+                        f"{o.cm(float(thr[ix])).matrix.tolist()} config={sc}/{ec}")
+    for name in ("tpr", "fnr", "tnr", "fpr", "topr", "tonr", "far", "frr"):
+        r = np.asarray(getattr(o, name)(thr))
+        require(r.shape == shp, "vec:rate-shape", f"{name}: {r.shape} for thresholds of shape {shp}")
+        for ix in idx[::3]:
+            one = getattr(o, name)(float(thr[ix]))
+            require(_same(r[ix], one), "vec:rate-elementwise",
+                    lambda: f"{name}(<thresholds of shape {shp}>)[{ix}] = {r[ix]!r} but {name}({float(thr[ix])!r}) = {one!r}")
+    for name in ("threshold_at_fpr", "threshold_at_fnr", "threshold_at_tpr", "threshold_at_tnr"):
+        r = np.asarray(getattr(o, name)(tg))
+        require(r.shape == shp, "vec:thr-shape", f"{name}: {r.shape} for targets of shape {shp}")
+        for ix in idx[::3]:
+            one = getattr(o, name)(float(tg[ix]))
+            require(_same(r[ix], one), "vec:thr-elementwise",
+                    lambda: f"{name}(<targets of shape {shp}>)[{ix}] = {r[ix]!r} but {name}({float(tg[ix])!r}) = {one!r}")
+    require(np.array_equal(thr, thr0) and np.array_equal(tg, tg0), "vec:mutated-threshold", f"argument array of shape {shp} changed")
+    return dict(nontrivial=True, labels=[f"ndim:{len(shp)}", f"n:{n}"])
+
+
 # ------------------------------------------------------------------ clause: pointwise shape
 @st.composite
 def _pw_cases(draw):
@@ -635,6 +688,8 @@ PROP = Prop(
                quick_shards=3, min_nontrivial=50, doc="shapes, elementwise = scalar, scalars, aliases"),
         Clause("long_vectors", check_long, kind="enum", cases=_long_cases, quick_shards=8, shards=16,
                min_nontrivial=10, doc="1e3-2e4 targets / thresholds per call vs the scalar calls"),
+        Clause("big_nd", check_bignd, kind="enum", cases=_bignd_cases, quick_shards=6, shards=16,
+               min_nontrivial=6, doc="2-d / 3-d threshold and target arrays of more than 1e4 entries vs scalar and flattened calls"),
         Clause("pointwise_shape", check_pointwise_shape, strategy=_pw_cases(), quick=400, quick_shards=2,
                thorough=6000, shards=4, min_nontrivial=50, doc="pointwise_cm shape incl. size-0 axes"),
         Clause("history", check_history, kind="machine", machine=make_machine, quick=80,
@@ -645,4 +700,4 @@ PROP = Prop(
                  "of rates and thresholds being plain scalars"],
 )
 
-RULE_EXTRA = ('float32 / float16 threshold arrays against float64 scores; clause long_vectors: 1e3-2e4 targets / thresholds per call; Fortran-ordered / non-contiguous threshold, target, score and label arrays; a caller-owned work buffer overwritten in place between queries (rule rate_buf).')
+RULE_EXTRA = ('float32 / float16 threshold arrays against float64 scores; clause long_vectors: 1e3-2e4 targets / thresholds per call; Fortran-ordered / non-contiguous threshold, target, score and label arrays; clause big_nd: 2-d / 3-d threshold and target arrays of 1e4-7e4 entries against the scalar calls and the flattened call; a caller-owned work buffer overwritten in place between queries (rule rate_buf).')
